@@ -9,7 +9,7 @@ namespace XotModel
 open HTree
 
 /-- The forest between two steps of the replay: old roots `R`, then the work tree, focus `c`. -/
-structure Cloning (g : Forest) (R : List HTree) (fs : List Frame) (c : Nat) (vc : Value)
+structure Cloning (g : Forest) (R : List HTree) (fs : List CFrame) (c : Nat) (vc : Value)
     (K : List HTree) : Prop where
   roots : g.roots = R ++ [plug fs (.node c vc K)]
   nodup : (handlesList R ++ (frameHandles fs ++ c :: handlesList K)).Nodup
@@ -23,7 +23,7 @@ theorem SameFlags.refl (g : Forest) : SameFlags g g := ⟨rfl, rfl, rfl⟩
 theorem SameFlags.trans {a b c : Forest} (h1 : SameFlags a b) (h2 : SameFlags b c) : SameFlags a c :=
   ⟨h2.1.trans h1.1, h2.2.1.trans h1.2.1, h2.2.2.trans h1.2.2⟩
 
-theorem focus_handles_eq (fs : List Frame) (c : Nat) (vc : Value) (K' : List HTree) (m : Nat) (vm : Value)
+theorem focus_handles_eq (fs : List CFrame) (c : Nat) (vc : Value) (K' : List HTree) (m : Nat) (vm : Value)
     (mk : List HTree) :
     frameHandles (fs ++ [⟨c, vc, K'⟩]) ++ m :: handlesList mk =
       frameHandles fs ++ c :: handlesList (K' ++ [.node m vm mk]) := by
@@ -57,7 +57,7 @@ theorem handlesList_snocClone (b : Bool) (K : List HTree) (n : Nat) (v : Value) 
 
 namespace Cloning
 
-variable {g : Forest} {R : List HTree} {fs : List Frame} {c : Nat} {vc : Value} {K : List HTree}
+variable {g : Forest} {R : List HTree} {fs : List CFrame} {c : Nat} {vc : Value} {K : List HTree}
 
 theorem work (cl : Cloning g R fs c vc K) (v : Value) :
     Work (g.newNode v).1 R fs c vc K g.next v := by
@@ -131,7 +131,7 @@ theorem copyInto_leaf (cons : Bool) (K : List HTree) (n h : Nat) (v : Value) (ks
 @[simp] theorem Forest.newNode_snd (g : Forest) (v : Value) : (g.newNode v).2 = g.next := rfl
 
 /-- A leaf of the source: one `new_node`, one `any_append`. -/
-theorem cloneInto_leaf {g : Forest} {R : List HTree} {fs : List Frame} {c : Nat} {vc : Value}
+theorem cloneInto_leaf {g : Forest} {R : List HTree} {fs : List CFrame} {c : Nat} {vc : Value}
     {K : List HTree} (cl : Cloning g R fs c vc K) (h : Nat) (v : Value) (adm : Admissible vc K v)
     (hne : v.isElement = false) :
     ∃ g', Forest.cloneInto g c (.node h v []) = some g' ∧
@@ -153,7 +153,7 @@ theorem cloneInto_leaf {g : Forest} {R : List HTree} {fs : List Frame} {c : Nat}
   | «namespace» p ns => simp only [Forest.cloneInto, Forest.newNode_snd, step, Forest.cloneKids]
 
 mutual
-  theorem cloneInto_spec (b : Bool) : ∀ (t : HTree) (g : Forest) (R : List HTree) (fs : List Frame)
+  theorem cloneInto_spec (b : Bool) : ∀ (t : HTree) (g : Forest) (R : List HTree) (fs : List CFrame)
       (c : Nat) (vc : Value) (K : List HTree), Cloning g R fs c vc K → validTree b t = true →
       Admissible vc K t.value →
       ∃ g', Forest.cloneInto g c t = some g' ∧
@@ -191,7 +191,7 @@ mutual
         refine ⟨g', h1, ?_, ?_, hf⟩
         · rw [copyInto_leaf _ _ _ _ _ _ hel' hd]; exact cl1
         · rw [copyInto_leaf _ _ _ _ _ _ hel' hd]; exact hn
-  theorem cloneKids_spec (b : Bool) : ∀ (ks : List HTree) (g : Forest) (R : List HTree) (fs : List Frame)
+  theorem cloneKids_spec (b : Bool) : ∀ (ks : List HTree) (g : Forest) (R : List HTree) (fs : List CFrame)
       (c : Nat) (vc : Value) (K : List HTree), Cloning g R fs c vc K → validList b ks = true →
       Pending vc K ks →
       ∃ g', Forest.cloneKids g c ks = some g' ∧
